@@ -62,6 +62,12 @@ func tableField(v ssa.Value, depth int) (*ssa.Alloc, string) {
 			if al, ok := e.X.(*ssa.Alloc); ok {
 				return al
 			}
+			// a slice literal: the slice of a local array
+			if sl, ok := e.X.(*ssa.Slice); ok {
+				if al, ok := sl.X.(*ssa.Alloc); ok {
+					return al
+				}
+			}
 		case *ssa.Alloc:
 			// the loop variable: a local holding a copy of the ranged element
 			var vals []ssa.Value
@@ -71,6 +77,18 @@ func tableField(v ssa.Value, depth int) (*ssa.Alloc, string) {
 				}
 			}
 			if len(vals) == 1 {
+				if ld, ok := vals[0].(*ssa.UnOp); ok && ld.Op == token.MUL {
+					if ia, ok := ld.X.(*ssa.IndexAddr); ok {
+						if al, ok := ia.X.(*ssa.Alloc); ok {
+							return al
+						}
+						if sl, ok := ia.X.(*ssa.Slice); ok {
+							if al, ok := sl.X.(*ssa.Alloc); ok {
+								return al
+							}
+						}
+					}
+				}
 				if ix, ok := vals[0].(*ssa.Index); ok {
 					if ld, ok := ix.X.(*ssa.UnOp); ok && ld.Op == token.MUL {
 						if al, ok := ld.X.(*ssa.Alloc); ok {
@@ -1321,7 +1339,39 @@ func storeKeyCtors(p *Prog, dup func(label string, ci, first *ctorInfo, fn *ssa.
 		}
 	}
 	// ctorOf: the label of the key constructor a term is a call of ("" if none)
-	ctorOf := func(t *Term) string {
+	var ctorOf func(t *Term) string
+	ctorOf = func(t *Term) string {
+		// a key kept in a package value computed once: what the initialiser builds it from
+		var gl *ssa.Global
+		if t.Op == "global" {
+			switch x := t.V.(type) {
+			case *ssa.Global:
+				gl = x
+			case *ssa.UnOp:
+				gl, _ = x.X.(*ssa.Global)
+			}
+		}
+		if gl != nil && gl.Pkg != nil && gl.Pkg.Pkg.Path() == storePkg {
+			if initFn := gl.Pkg.Func("init"); initFn != nil {
+				for _, b := range initFn.Blocks {
+					for _, in := range b.Instrs {
+						if st, ok := in.(*ssa.Store); ok && st.Addr == ssa.Value(gl) {
+							found := ""
+							TermOf(st.Val, &Ctx{Fn: initFn}).Walk(func(x *Term) bool {
+								if x.Op == "call" {
+									if l := ctorOf(x); l != "" {
+										found = l
+									}
+								}
+								return true
+							})
+							return found
+						}
+					}
+				}
+			}
+			return ""
+		}
 		if t.Op != "call" {
 			return ""
 		}
